@@ -163,3 +163,13 @@ UNIT = Unit(
     ],
 )
 UNIT.allowed_calls = {'iter_mut', 'clone'}
+
+
+def native(workdir):
+    import twins
+    return twins.native(workdir)
+
+
+def replay_args(inp):
+    import twins
+    return twins.replay_args(inp)
